@@ -11,6 +11,15 @@ variable {α : Type}
 def IsObj (w : World α) (b i : Nat) : Prop := ∃ v, (w.mem b)[i]? = some (.obj v)
 def IsRaw (w : World α) (b i : Nat) : Prop := (w.mem b)[i]? = some .raw
 
+theorem isObj_of_eq {w w' : World α} {b i b' i' : Nat} (h : (w'.mem b')[i']? = (w.mem b)[i]?) (ho : IsObj w b i) : IsObj w' b' i' := by
+  obtain ⟨v, hv⟩ := ho; exact ⟨v, by rw [h]; exact hv⟩
+
+theorem isRaw_of_eq {w w' : World α} {b i b' i' : Nat} (h : (w'.mem b')[i']? = (w.mem b)[i]?) (ho : IsRaw w b i) : IsRaw w' b' i' := by
+  unfold IsRaw at *; rw [h]; exact ho
+
+theorem not_obj_and_raw {w : World α} {b i : Nat} (h1 : IsObj w b i) (h2 : IsRaw w b i) : False := by
+  obtain ⟨v, hv⟩ := h1; rw [IsRaw, hv] at h2; cases h2
+
 theorem destroyAt_sat (c : Cfg) (b i : Nat) (w : World α) (h : IsObj w b i) :
     (destroyAt c b i w).sat
       (fun _ w' => Ctl w w' ∧ IsRaw w' b i ∧ ∀ b' i', (b', i') ≠ (b, i) → (w'.mem b')[i']? = (w.mem b')[i']?)
